@@ -100,6 +100,9 @@ Fixpoint set_origins (o : list origin) (upd : list (nat * origin)) : list origin
 Section Run.
   (** matching hunks of (commit, edge target), as recorded from the real diff *)
   Variable matching : nat -> nat -> list range3.
+  (** [old = true]: the behaviour before the repair of /repo (fix 26901e2): an omitted
+      parent was counted in [num_unresolved_roots] once per missing edge reaching it. *)
+  Variable old : bool.
 
   (** One parent edge of [process_commit] (annotate.rs:345-396). *)
   Definition process_edge (c : nat) (acc : state * lmap) (e : edge) : state * lmap :=
@@ -117,7 +120,12 @@ Section Run.
         then (mk_state
                 (set_origins (st_olm st)
                    (map (fun ps => (snd ps, mk_origin false p (fst ps))) pmap'))
-                srcs' (S (st_unres st)), curmap')
+                srcs'
+                (* [parent_was_pending]: the parent already had lines before this edge *)
+                (match pmap with
+                 | [] => S (st_unres st)
+                 | _ => if old then S (st_unres st) else st_unres st
+                 end), curmap')
         else (mk_state (st_olm st) srcs' (st_unres st), curmap')
     end.
 
@@ -248,18 +256,44 @@ Definition prop_ok (c : case) (os : list origin) (txt : text) : bool :=
   && list_eqb line_eqb txt (case_text c start)
   && origins_ok_from c 0 os.
 
-(** Strict form of the last clause: an unresolved origin never names the starting commit
-    (the initial placeholder) — it must point outside the searched range. *)
+(** Strict form of the last clause: an unresolved origin is the target of a missing edge —
+    a commit outside the searched range (never the placeholder naming the start). *)
 Definition strict_ok (c : case) (os : list origin) : bool :=
-  forallb (fun o => o_ok o || negb (Nat.eqb (o_commit o) (N.to_nat (c_start c)))) os.
+  forallb (fun o => o_ok o ||
+                    existsb (fun nd => existsb (fun e => is_missing e && Nat.eqb (fst e) (o_commit o))
+                                               (snd nd)) (case_nodes c)) os.
 
 Definition okb (c : case) : bool :=
   prop_ok c (case_origins c) (lines_of (c_text c)) && strict_ok c (case_origins c).
 
-(** Known-finding class (annotate-unresolved-root-counted-twice): two nodes of the searched
-    graph have a missing edge to the same omitted parent, so [num_unresolved_roots] counts
-    it twice and [process_commits] may stop while a commit inside the domain is pending. *)
-Definition known_class (c : case) : bool :=
+(** Further validity of the recorded stream (hypotheses of the strict theorem, checked per
+    case): node commits are pairwise distinct, no node is the target of a missing edge,
+    every non-missing edge target appears later in the stream, and the starting commit is a
+    node. *)
+Definition is_mtb (nodes : list node) (p : nat) : bool :=
+  existsb (fun nd => existsb (fun e => is_missing e && Nat.eqb (fst e) p) (snd nd)) nodes.
+Fixpoint nodupb (l : list nat) : bool :=
+  match l with
+  | [] => true
+  | x :: t => negb (existsb (Nat.eqb x) t) && nodupb t
+  end.
+Fixpoint closedb (l : list node) : bool :=
+  match l with
+  | [] => true
+  | nd :: t =>
+      forallb (fun e => is_missing e || existsb (fun nd' => Nat.eqb (fst nd') (fst e)) t) (snd nd)
+      && closedb t
+  end.
+Definition stream_okb (c : case) : bool :=
+  let nodes := case_nodes c in
+  nodupb (map fst nodes)
+  && forallb (fun nd => negb (is_mtb nodes (fst nd))) nodes
+  && closedb nodes
+  && existsb (fun nd => Nat.eqb (fst nd) (N.to_nat (c_start c))) nodes.
+
+(** The shape on which the behaviour before the repair went wrong: two nodes of the searched
+    graph have a missing edge to the same omitted parent. *)
+Definition shared_omitted_parent (c : case) : bool :=
   let missing_targets nd := map fst (filter is_missing (snd nd)) in
   existsb (fun nd1 => existsb (fun nd2 =>
       negb (Nat.eqb (fst nd1) (fst nd2)) &&
@@ -268,9 +302,13 @@ Definition known_class (c : case) : bool :=
 
 Definition model_origins (c : case) : list origin :=
   let start := N.to_nat (c_start c) in
-  annotate (case_matching c) start (length (case_text c start)) (case_nodes c).
+  annotate (case_matching c) false start (length (case_text c start)) (case_nodes c).
+(** what the code computed before the repair (kept for the refuted witness) *)
+Definition model_origins_old (c : case) : list origin :=
+  let start := N.to_nat (c_start c) in
+  annotate (case_matching c) true start (length (case_text c start)) (case_nodes c).
 
 Definition check_case (c : case) : N :=
-  let c1 := inputs_ok c in
+  let c1 := inputs_ok c && stream_okb c in
   let c2 := list_eqb origin_eqb (model_origins c) (case_origins c) in
-  verdict (c1 && c2) (okb c) (known_class c && negb (okb c)) (if c1 then 2 else 1).
+  verdict (c1 && c2) (okb c) false (if c1 then 2 else 1).
